@@ -603,3 +603,22 @@ def install_monitors():
     for grp, mod in (('gis', c_hydrodiy_gis), ('data', c_hydrodiy_data), ('stat', c_hydrodiy_stat)):
         mons.append(pyxl2.Monitor(grp, mod, contract.REGISTRY, KERNEL_FILE, consts))
     return mons
+
+
+def run_monitors(run, names):
+    """bounded python-level monitors (props/monitors.py) against the python files and freshly compiled kernels of the working tree"""
+    import traceback
+    from props import apidrive, monitors
+    try:
+        apidrive.setup()
+    except Exception:
+        run.broken.append('building the extension modules from the working tree failed: ' + traceback.format_exc()[-1500:]); return
+    for nm in names:
+        try:
+            res = getattr(monitors, nm)(run.rng, run.tier)
+            res.report(run, nm)
+        except Exception:
+            run.broken.append('monitor %s crashed: %s' % (nm, traceback.format_exc()[-1800:]))
+    a = 'bounded monitors run against extension modules compiled from the working tree with gcc from the generated c_hydrodiy_*.c (Cython is not installed: a change to a .pyx file is not seen by the dynamic part)'
+    if a not in run.assumptions:
+        run.assumptions.append(a)
